@@ -19,8 +19,7 @@ def section(text, pat):
     return "\n".join(out).strip()
 parts = []
 parts.append("## 8. Log of oracle/generator corrections (false alarms)\n\nCollected from the per-property build notes (`notes/CNN.md`). Every entry is a case where a check demanded more than the property, the documentation or the RFC says, or where a generator left the documented input domain; the machinery was corrected, nothing here was listed as a finding.\n")
-parts.append("### Corrections made while integrating\n\n* **C01** — reflexivity of `==` on returned records is C04's statement, not C01's; removed from C01 (a non-reflexive `AllRecordData::Opt` had been reported as a C01 failure). Typed record iterators may yield several RDATA errors and continue (documented), only the untyped section iterator is fused. The library's lazy reader can reach later sections by skipping a record whose owner it cannot decompress, so the walker comparison is per section, and the walker skips names without following pointers. `Label::iter_slice` is bounded by 256 labels (255-octet cap) rather than by the slice length after the repair.\n* **C05** — after the repair `Nsec::parse` rejects an empty type bitmap (RFC 4034 §4.1.2: one or more window blocks), an `Nsec` value with an empty bitmap is outside the valid value domain (like a ZONEMD digest shorter than 12 octets); the constructor-based generator now gives such an NSEC the NSEC bit. NSEC3 keeps empty bitmaps.\n* **C09** — after the repair "ZoneUpdater ignores a record that is already present" (found by C10; RFC 5936 §2.2, RFC 2181 §5) the C09 model, which let `AddRecord` of an existing record produce a duplicate inside the RRset, disagreed with the library (seed 1: `twin:walk-differs-from-model`). The library is right; the model now treats such an add as a no-op (class `updater-add-duplicate-ignored`).
-* **C19** — the repair that made `Txt::parse` reject empty RDATA broke the repository's own feature-gated test `zonefile::inplace::test::test_unknown_zero_length_yaml`; it was withdrawn (history rewritten before anything depended on it) and the disagreement is recorded as known finding C19-F1 instead. The established and the new type-bitmap parsers both accepted a repeated window block; both were tightened (`>=`), so that neither codec is more lenient than RFC 4034 §4.1.2.\n")
+parts.append("### Corrections made while integrating\n\n* **C01** — reflexivity of `==` on returned records is C04's statement, not C01's; removed from C01 (a non-reflexive `AllRecordData::Opt` had been reported as a C01 failure). Typed record iterators may yield several RDATA errors and continue (documented), only the untyped section iterator is fused. The library's lazy reader can reach later sections by skipping a record whose owner it cannot decompress, so the walker comparison is per section, and the walker skips names without following pointers. `Label::iter_slice` is bounded by 256 labels (255-octet cap) rather than by the slice length after the repair.\n* **C05** — after the repair `Nsec::parse` rejects an empty type bitmap (RFC 4034 §4.1.2: one or more window blocks), an `Nsec` value with an empty bitmap is outside the valid value domain (like a ZONEMD digest shorter than 12 octets); the constructor-based generator now gives such an NSEC the NSEC bit. NSEC3 keeps empty bitmaps.\n* **C09** — after the repair 'ZoneUpdater ignores a record that is already present' (found by C10; RFC 5936 §2.2, RFC 2181 §5) the C09 model, which let `AddRecord` of an existing record produce a duplicate inside the RRset, disagreed with the library (seed 1: `twin:walk-differs-from-model`). The library is right; the model now treats such an add as a no-op (class `updater-add-duplicate-ignored`).\n* **C19** — the repair that made `Txt::parse` reject empty RDATA broke the repository's own feature-gated test `zonefile::inplace::test::test_unknown_zero_length_yaml`; it was withdrawn (history rewritten before anything depended on it) and the disagreement is recorded as known finding C19-F1 instead. The established and the new type-bitmap parsers both accepted a repeated window block; both were tightened (`>=`), so that neither codec is more lenient than RFC 4034 §4.1.2.\n")
 for f in sorted(glob.glob(f"{ROOT}/notes/C*.md")):
     pid = os.path.basename(f)[:-3]
     s = section(open(f).read(), r"false alarm")
